@@ -69,7 +69,7 @@ closed in the harness or engine, never by special-casing the seed. **Final
 state: %d of %d caught at the quick tier** (last pass over all %d on the final
 tree and checks: `tools/seedfinal.sh`).
 
-**Round 4** (suffix E, 12 properties: C02, C03, C05, C06, C08, C10, C11, C13, C14, C17, C19, C20; same brief as
+**Round 4** (suffix E, 14 properties: C02, C03, C04, C05, C06, C07, C08, C10, C11, C13, C14, C17, C19, C20; same brief as
 round 3, told about the four earlier changes of their property): first attempt %d of %d caught by the
 property's own check, 1 more (C06-E, `TrimSpace` between two trimming tags) not by C06 but by C15's check,
 whose subject it is, %d inconclusive, the rest missed. What was missing and what was added - again in the
@@ -84,7 +84,13 @@ because the engine had no model of `reflect.Type.ConvertibleTo`/`Value.Convert` 
 conversion rules and the engine's own `conv`; C20-E (per-slot `sync.Once`, failed load deletes the slot
 by name) was flagged by the critical-section monitor but its native demonstration did not reproduce it
 (exit 2) -> the demonstration now also stages a failing load that is overtaken by `CleanCache` and a
-successful reload. All 12 are caught now.
+successful reload. Those 12 are caught now. **Still open** (arrived in the last minutes of the session,
+confirmed, missed, not yet closed - the next strengthening to do): C04-E (the item slice of an in-template
+list literal `[a, b]` is kept on the compiled node and refilled; visible when the same literal is
+re-evaluated while an earlier result is still being iterated - recursion through a macro, or concurrent
+executions; C04's programs have no list literal with non-constant items inside a recursive macro) and
+C07-E (a fast path in `^` that switches on the *truncated* exponent: `4 ^ 0.5` gives 1; C07's generator
+draws integer exponents and `.0` floats only).
 
 The round-3 agents' reports about the unchanged tree were the most productive
 input of the whole exercise: 20 of the 41 repairs of §7 start from them. Each
